@@ -99,6 +99,21 @@ func (c *monC18) After(m *Machine, s *Step) *Violation {
 			if !ok && m.rotationOwner(s) != after {
 				return violation("C18", sig("success-without-save"), "password recovery reported success (location %q, session %q) but storage does not hold the new password with the token cleared", r.Location, after)
 			}
+			// the reset also promises that remember tokens issued before it are gone
+			if m.C.Cfg.Has("remember") {
+				for pid, u := range s.Pre.Users {
+					if !tokenMatches(s.Secret, u.RecoverSelector, u.RecoverVerifier) {
+						continue
+					}
+					for _, old := range s.Pre.Tokens[pid] {
+						for _, now := range post.Tokens[pid] {
+							if old == now {
+								return violation("C18", sig("success-without-save")+":remember-tokens", "password recovery of %q reported success (location %q, session %q) but a remember token issued before it is still in storage", pid, r.Location, after)
+							}
+						}
+					}
+				}
+			}
 		}
 	case "otpadd":
 		if r.JSON != nil {
@@ -287,6 +302,8 @@ func c18Scenarios() []c18Scenario {
 		{Name: "recover-start-unknown", Target: Op{K: "recstart", A: -1}},
 		{Name: "recover-end-valid", Setup: []Op{{K: "recstart", A: 0}}, Target: Op{K: "recend", A: 0, Src: "rectok", SA: 0, S: "Passw0rd!R"},
 			After: []Op{{K: "newsess"}, {K: "recend", A: 0, Src: "rectok", SA: 0, S: "Passw0rd!S"}, {K: "login", A: 0, Src: "pwold", SA: 0}}},
+		{Name: "recover-end-remembered", Setup: []Op{{K: "login", B: 1, A: 0, Src: "pw", SA: 0, F: true}, {K: "recstart", A: 0}}, Target: Op{K: "recend", A: 0, Src: "rectok", SA: 0, S: "Passw0rd!R"},
+			After: []Op{{K: "newsess", B: 1}, {K: "visit", B: 1, S: "/p/none"}}},
 		{Name: "recover-end-2fa-account", Setup: []Op{{K: "recstart", A: 1}}, Target: Op{K: "recend", A: 1, Src: "rectok", SA: 1, S: "Passw0rd!R"}},
 		{Name: "recover-end-invalid", Setup: []Op{{K: "recstart", A: 0}}, Target: Op{K: "recend", A: 0, Src: "rectok", SA: 0, Mut: "flip", MA: 300, S: "Passw0rd!R"}},
 		{Name: "logout", Setup: []Op{login0}, Target: Op{K: "logout"}},
